@@ -17,7 +17,8 @@ Shape grammar (all fields required):
   comps      list of {name, ls (stage inside the document), uses: [binding names], deps: [[idx, spelling, method, file]],
                       replicate: int (0 = not replicated), aggregate: bool}
   bindings   {name: {type: 'ref'|'output', outside: <name of an outside producer in stage 0>, file: None|str,
-                     file_at: 'binding'|'usage'|None, carried_from: None|idx of looped component, spell: 'abs'|'rel'}}
+                     file_at: see FILE_AT, carried_from: None|idx of looped component, spell: 'abs'|'rel'}}
+  outside_replicate  optional {outside producer name: replicas}; its consumers in the loop aggregate
   cond       idx of the component that produces the condition;  cond_file: None|str; cond_spell: 'abs'|'rel'
   consumers  list of {name, stage, refs: [[idx, method, file]]}   (outside consumers of looped components)
   store      bool  (store_flowir_to_disk argument)
@@ -59,8 +60,30 @@ def comp_stage(shape, comp):
     return shape['S'] + comp['ls']
 
 
-def binding_effective_file(b):
-    return b.get('file') if b.get('file_at') in ('binding', 'usage') else None
+FILE_AT = {            # file_at -> where the file name of a binding is written: (original binding, loopBinding, usage)
+    None: (0, 0, 0), 'binding': (1, 1, 0), 'usage': (0, 0, 1), 'loop+usage': (0, 1, 1), 'all': (1, 1, 1),
+    'loop': (0, 1, 0), 'orig': (1, 0, 0), 'orig+usage': (1, 0, 1),
+}
+
+
+def binding_files(b):
+    """-> {'orig', 'loop', 'usage'}: the file name written on the original binding, the loopBinding and the reference
+    that uses the binding (None where absent).  Where two places name a file it is the same name."""
+    o, l, u = FILE_AT[b.get('file_at')]
+    f = b.get('file')
+    return {'orig': f if o else None, 'loop': f if l else None, 'usage': f if u else None}
+
+
+def binding_effective_file(b, carried=True):
+    """File below the producer that an input taken through binding b names: the usage's file or the file of the
+    loopBinding (input carried from the previous iteration) / of the original binding (otherwise)."""
+    fs = binding_files(b)
+    return (fs['loop'] if carried else fs['orig']) or fs['usage']
+
+
+def outside_replicas(shape, name):
+    r = (shape.get('outside_replicate') or {}).get(name, 0)
+    return ['%s%d' % (name, j) for j in range(r)] if r else [name]
 
 
 def expected_instance_refs(shape, ci, i, rep):
@@ -70,13 +93,15 @@ def expected_instance_refs(shape, ci, i, rep):
     out = set()
     for bname in comp['uses']:
         b = shape['bindings'][bname]
-        fil = binding_effective_file(b)
         if b.get('carried_from') is not None and i > 0:
+            fil = binding_effective_file(b, carried=True)
             p = shape['comps'][b['carried_from']]
             for base in replica_names(p):
                 out.add((comp_stage(shape, p), inst_name(i - 1, base), fil, b['type']))
         else:
-            out.add((0, b['outside'], fil, b['type']))
+            fil = binding_effective_file(b, carried=False)
+            for n in outside_replicas(shape, b['outside']):
+                out.add((0, n, fil, b['type']))
     for (pi, _spelling, method, fil) in comp['deps']:
         p = shape['comps'][pi]
         bases = replica_names(p)
@@ -88,7 +113,9 @@ def expected_instance_refs(shape, ci, i, rep):
 
 
 def outside_names(shape):
-    return sorted({b['outside'] for b in shape['bindings'].values()} | {'gen'})
+    """Names of the nodes of the outside producers (replicas where the outside producer is replicated)."""
+    base = sorted({b['outside'] for b in shape['bindings'].values()} | {'gen'})
+    return [n for b in base for n in outside_replicas(shape, b)]
 
 
 def expected_state(shape, k):
